@@ -3,6 +3,9 @@ package props
 
 import (
 	_ "verif/harness/props/c01"
+	_ "verif/harness/props/c04"
+	_ "verif/harness/props/c05"
+	_ "verif/harness/props/c06"
 	_ "verif/harness/props/c07"
 	_ "verif/harness/props/c08"
 	_ "verif/harness/props/c09"
